@@ -23,9 +23,10 @@ import SlimModel.SlimMsg
   `errors.Cause` cannot tell them apart, so the model does not either), except "illegal tag 0" and
   "can't skip unknown wire type" (→ `Err.badProto`).
 
-  Deviation forced by `SlimMsg` (int32 fields are `Nat`): Go stores `int32(x)` for any varint `x`;
-  the model stores `x mod 2^32` when that is below 2^31 and answers `Err.badProto "negative int32"`
-  where Go would store a negative number.  Unknown fields inside *nested* messages are validated
+  Deviation forced by `SlimMsg` (int32 fields are `Nat`): Go stores `int32(x)` for any varint `x`.
+  The model reads exactly like Go (same errors, in the same order), keeping `x mod 2^32`, and then
+  answers `Err.badProto "negative int32"` iff the message Go ends up with holds a negative int32
+  anywhere (`checkI32`); otherwise it is Go's message.  Unknown fields inside *nested* messages are validated
   (same errors) but dropped, Go keeps them in the nested XXX_unrecognized.
 -/
 
@@ -158,9 +159,11 @@ decreasing_by all_goals (simp [List.length_drop]; omega)
 
 /-! ### typed field unmarshalers -/
 
-/-- `int32(x)` restricted to the non-negative values `SlimMsg` can hold. -/
-def toInt32 (x : Nat) : Except Err Nat :=
-  if x % 2 ^ 32 < 2 ^ 31 then .ok (x % 2 ^ 32) else .error (.badProto "negative int32")
+/-- `int32(x)`, kept as its 32-bit pattern while the message is being read (values ≥ 2^31 are the
+    negative numbers).  Go's unmarshaler never fails on a value; whether the *final* message can be
+    held by `SlimMsg` (no negative int32 left, a later occurrence of a scalar overwrites an earlier
+    one) is checked once at the end, by `checkI32`. -/
+def toInt32 (x : Nat) : Except Err Nat := .ok (x % 2 ^ 32)
 
 def toUint32 (x : Nat) : Nat := x % 2 ^ 32
 
@@ -208,8 +211,7 @@ def repU32 (cur : List Nat) (v : WVal) : Except Err (Option (List Nat)) :=
   | .ok none => .ok none
   | .ok (some l) => .ok (some (cur ++ l.map toUint32))
 
-/-- Go appends element by element, so an element that fails comes after the earlier ones were
-    stored; the message is discarded on error, so only the error is observable. -/
+/-- Repeated int32: every element as its 32-bit pattern (see `toInt32`). -/
 def repI32 (cur : List Nat) (v : WVal) : Except Err (Option (List Nat)) :=
   match repVals v with
   | .error e => .error e
@@ -306,7 +308,23 @@ def dropUnknown {α : Type} (acc : α) (_ : Bytes) : α := acc
 def decodeBitmapInto (acc : BitmapMsg) (bs : Bytes) : Except Err BitmapMsg :=
   decodeMsg bitmapH dropUnknown acc bs
 
-def decodeBitmap (bs : Bytes) : Except Err BitmapMsg := decodeBitmapInto {} bs
+/-! representability of the final message: no int32 field is negative -/
+
+def i32ok (x : Nat) : Bool := x < 2 ^ 31
+
+def optOK {β : Type} (f : β → Bool) : Option β → Bool
+  | none => true
+  | some b => f b
+
+/-- The result of a top-level decode, refused when `SlimMsg`'s `Nat` fields cannot hold it. -/
+def checkI32 {α : Type} (ok : α → Bool) (r : Except Err α) : Except Err α :=
+  match r with
+  | .error e => .error e
+  | .ok m => if ok m then .ok m else .error (.badProto "negative int32")
+
+def bitmapI32OK (b : BitmapMsg) : Bool := b.rankIndex.all i32ok && b.selectIndex.all i32ok
+
+def decodeBitmap (bs : Bytes) : Except Err BitmapMsg := checkI32 bitmapI32OK (decodeBitmapInto {} bs)
 
 def encodeBitmap (b : BitmapMsg) : Bytes :=
   encPackedF 20 b.words ++ (encPackedF 30 b.rankIndex ++ encPackedF 40 b.selectIndex)
@@ -341,7 +359,12 @@ def vlenH (acc : VLenArrayMsg) (fno : Nat) (v : WVal) : Except Err (Option VLenA
 def decodeVLenArrayInto (acc : VLenArrayMsg) (bs : Bytes) : Except Err VLenArrayMsg :=
   decodeMsg vlenH dropUnknown acc bs
 
-def decodeVLenArray (bs : Bytes) : Except Err VLenArrayMsg := decodeVLenArrayInto {} bs
+def vlenI32OK (v : VLenArrayMsg) : Bool :=
+  i32ok v.n && i32ok v.eltCnt && i32ok v.fixedSize && optOK bitmapI32OK v.positionBM &&
+  optOK bitmapI32OK v.presenceBM
+
+def decodeVLenArray (bs : Bytes) : Except Err VLenArrayMsg :=
+  checkI32 vlenI32OK (decodeVLenArrayInto {} bs)
 
 def encodeVLenArray (v : VLenArrayMsg) : Bytes :=
   encVarintF 10 v.n ++ (encVarintF 11 v.eltCnt ++ (encMsgF 20 (v.positionBM.map encodeBitmap) ++
@@ -390,8 +413,14 @@ def slimU (acc : SlimMsg) (raw : Bytes) : SlimMsg := { acc with unrecognized := 
 def decodeSlimInto (acc : SlimMsg) (bs : Bytes) : Except Err SlimMsg :=
   decodeMsg slimH slimU acc bs
 
-/-- `proto.Unmarshal(b, &Slim{})` (Reset, then merge into the empty message). -/
-def decodeSlim (bs : Bytes) : Except Err SlimMsg := decodeSlimInto {} bs
+def slimI32OK (s : SlimMsg) : Bool :=
+  i32ok s.bigInnerCnt && i32ok s.shortSize && optOK bitmapI32OK s.nodeTypeBM && optOK bitmapI32OK s.inners &&
+  optOK bitmapI32OK s.shortBM && optOK vlenI32OK s.innerPrefixes && optOK vlenI32OK s.leafPrefixes &&
+  optOK vlenI32OK s.leaves
+
+/-- `proto.Unmarshal(b, &Slim{})` (Reset, then merge into the empty message), then the
+    representability check. -/
+def decodeSlim (bs : Bytes) : Except Err SlimMsg := checkI32 slimI32OK (decodeSlimInto {} bs)
 
 def encodeSlimKnown (s : SlimMsg) : Bytes :=
   encVarintF 11 s.bigInnerCnt ++ (encVarintF 14 s.shortSize ++
